@@ -121,8 +121,9 @@ pub fn run(r: &mut Rng, n: usize, out: &mut Out) {
                     resp.header.recursion_available = r.chance(1, 2);
                 }
             }
-            let ok = verif_response_matches_request(&req, &resp);
-            out.case(&["upstream.matches", &c::message(&req), &c::message(&resp)], if ok { "1" } else { "0" });
+            let (a, b) = (req.clone(), resp.clone());
+            let text = crate::watch::text(10, move || if verif_response_matches_request(&a, &b) { "1".into() } else { "0".into() });
+            out.case(&["upstream.matches", &c::message(&req), &c::message(&resp)], &text);
         }
     }
 }
